@@ -72,6 +72,7 @@ type Result struct {
 	LogFPs     []uint64         `json:"log_fps"`     // full event-log fingerprints, all runs, in order
 	Violations []FoundViolation `json:"violations"`
 	Other      map[string]int   `json:"other_props"` // violations of other properties seen (not reported by this check)
+	OtherFirst map[string]string `json:"other_first,omitempty"` // per such key: seed and detail of the first one (diagnosis only)
 	Samples    []any            `json:"samples"`
 	Retire     bool             `json:"retire"`
 	TLSReal    int              `json:"tls_real"`
@@ -319,6 +320,12 @@ func runOne(t *testing.T, job *Job, seed uint64, res *Result) {
 			for _, v := range s.Violations() {
 				if v.Prop != job.Prop {
 					res.Other[v.Prop+"/"+v.Rule]++
+					if res.OtherFirst == nil {
+						res.OtherFirst = map[string]string{}
+					}
+					if _, ok := res.OtherFirst[v.Prop+"/"+v.Rule]; !ok {
+						res.OtherFirst[v.Prop+"/"+v.Rule] = fmt.Sprintf("scenario %s seed %d: %s: %s", job.Scen, seed, v.Culprit, trunc(v.Detail, 400))
+					}
 					continue
 				}
 				if seen[v.Sig()] {
